@@ -20,8 +20,10 @@
   `Step.colInsOk` (the step is an applicable row/column insertion before `pos`), `Step.newRow n M s` / `Step.newCol M s`
   (the inserted line, exactly as in `Step.apply`), `Step.unitSign` (the sign of a `U`/`D` step is `+1`), `spCls t`
   (`spt` for `t = true`, `spb` for `t = false`).
-  Not covered: the GF(2) pivot for `reg`/`gra`/`cog`/`spb`, the GF(3) pivot for `net`/`con`/`spt`, the non-transposition
-  steps for `gra`/`cog`/`net`/`con` (the brute-force graphicness oracle), the class `cam`, sums for classes other than `tu`.
+  Covered in extension modules: the GF(2) pivot for `reg` (C10Pivot.lean), 1- and 2-sums for `reg` (C10Sums.lean),
+  the non-transposition, non-pivot steps for `gra`/`cog`/`net`/`con` (C10Graphic.lean).
+  Not covered: the GF(2) pivot for `gra`/`cog`/`spb`, the GF(3) pivot for `net`/`con`/`spt`, the class `cam`,
+  sums for classes other than `tu` and `reg`.
 -/
 import CmrProofs.Lemmas.RelLemmas
 import CmrProofs.Props.C12
